@@ -530,6 +530,8 @@ def install(prefix="pyairtouch"):
     """Inject the shims into every loaded module of the package. Idempotent per module."""
     if _INSTALLED:
         return
+    from . import procstate
+    procstate.restore()          # whatever ran before (self-test vectors, lemmas) must not become the recorded baseline
     patch_enum()
     dt = _DatetimeModule()
     for mod in repo_modules(prefix):
@@ -564,6 +566,9 @@ def install(prefix="pyairtouch"):
 
 
 def uninstall():
+    from . import procstate
+    if _INSTALLED:
+        procstate.restore()
     unwrap_int_dicts()
     while _INSTALLED:
         mod, name, had, old = _INSTALLED.pop()
